@@ -566,13 +566,13 @@ func TestC03(t *testing.T) {
 	if !preamble(t) {
 		return
 	}
-	if !ev.Rapid(t, rec, "tcp_retention", rec.Scale(3000, 200000), genTCase, func(c TCase) *ev.Failure {
+	if !ev.Rapid(t, rec, "tcp_retention", rec.Scale(3000, 1000000), genTCase, func(c TCase) *ev.Failure {
 		rec.Case(ev.Hash(c), true, "tcp_retention", "mode_"+c.Mode)
 		return runTCase(c)
 	}) {
 		return
 	}
-	ev.Rapid(t, rec, "histories", rec.Scale(50000, 2000000), genCase, func(c Case) *ev.Failure {
+	ev.Rapid(t, rec, "histories", rec.Scale(50000, 10000000), genCase, func(c Case) *ev.Failure {
 		return runRecorded("histories", c)
 	})
 }
